@@ -98,6 +98,8 @@ def process_top(job):
                 xc['samples'] += 1
                 if r.get('status') != 'proved' or 'cex' not in r:
                     xc['no-model'] += 1
+                    if os.environ.get('PYVC_XCHECK_DEBUG'):
+                        print(f"xcheck {key}: no-model: {r.get('status')} {str(r.get('detail'))[:300]} {r.get('cex_error')}", file=sys.stderr)
                     continue
                 try:
                     rr = R.run_native(top, C.REG, r['cex'])
@@ -107,6 +109,10 @@ def process_top(job):
                 if oc == 'violated' and all(str(f).startswith(('exc#AttributeError', 'exc#TypeError', 'exc#NameError')) for f in rr.get('failed') or ['x']):
                     oc = 'error'  # only witnesses the stub environment (same rule as replay.confirms)
                 xc[oc] = xc.get(oc, 0) + 1
+                if os.environ.get('PYVC_XCHECK_DEBUG') and oc != 'held':
+                    print(f'xcheck {key}: {oc}: {rr.get("detail") or rr.get("failed")} {rr.get("exception") or ""}', file=sys.stderr)
+                    if os.environ.get('PYVC_XCHECK_DEBUG') == '2':
+                        print('   state:', json.dumps(R.to_jsonable(r['cex']))[:3000], file=sys.stderr)
                 if oc == 'violated' and len(xc['failed']) < 3:
                     xc['failed'].append({'failed': rr.get('failed'), 'state': R.to_jsonable(r['cex']), 'exception': rr.get('exception')})
                 continue
@@ -163,6 +169,14 @@ def process_top(job):
                     e['kind'] = 'bounded'
                     nb += e['n']
             out['bounded'].append({'entry': key, 'note': out['note'], 'obligations': nb, 'all_proved': all(e['proved'] == e['n'] for e in out['names'].values())})
+        elif getattr(top, 'extra', {}).get('bounded'):
+            # a bounded stand-in (`bounded='<the bound>'` on the lemma): its obligations are reported under `bounded`
+            # and never counted as discharged; a refuted one still alarms
+            for name, e in out['names'].items():
+                if not e['expect_sat']:
+                    e['kind'] = 'bounded'
+            out['bounded'].append({'entry': key, 'bound': top.extra['bounded'], 'obligations': sum(e['n'] for e in out['names'].values() if not e['expect_sat']),
+                                   'undecided': sum(e['unknown'] for e in out['names'].values() if not e['expect_sat'])})
     except Exception:
         out['error'] = traceback.format_exc()
     out['wall_s'] = time.time() - t0
@@ -239,6 +253,8 @@ def main():
     if a.tier not in ('quick', 'thorough'):
         a.tier = 'quick'
     seed = int(os.environ.get('VERIF_SEED', '0') or 0)
+    if a.tier == 'thorough':
+        os.environ.setdefault('PYVC_XCHECK', '40')  # more CPython cross-check samples per entry (inherited by the workers)
     prop = a.prop
     t_start = time.time()
     from . import contracts as C
